@@ -1,5 +1,6 @@
 #include "models.h"
 #include <string.h>
+#include <algorithm>
 #include <stdlib.h>
 #include "third_party/rapidhash/rapidhash.h"
 
@@ -7,25 +8,59 @@ namespace sim {
 
 uint64_t NinjaCommandHash(const std::string& command) { return rapidhash(command.data(), command.size()); }
 
+// Mirrors the documented reading discipline of the log: the file is consumed
+// through a 256 KiB window; a line that does not fit in the window is silently
+// ignored (pinned by BuildLogTest.VeryLongInputLine), a last line without a
+// newline is not a record, a line needs four tabs, the last record per output wins.
 BuildLogFold FoldBuildLog(const std::string& b, bool present) {
   BuildLogFold f;
   f.present = present;
   if (!present) return f;
-  size_t i = 0;
+  const size_t N = 256 << 10;
+  std::string buf;           // window
+  size_t file_pos = 0;
+  size_t line_start = 0;
+  bool have_end = false;
+  size_t line_end = 0;
   bool first = true;
-  while (i < b.size()) {
-    size_t nl = b.find('\n', i);
-    if (nl == std::string::npos) break;   // incomplete last line: not a record
-    std::string line = b.substr(i, nl - i);
-    i = nl + 1;
+  bool started = false;
+  for (;;) {
+    // ---- ReadLine
+    if (!started || line_start >= buf.size() || !have_end) {
+      size_t n = std::min(N, b.size() - file_pos);
+      if (n == 0) break;
+      buf.assign(b, file_pos, n);
+      file_pos += n;
+      line_start = 0;
+      started = true;
+    } else {
+      line_start = line_end + 1;
+    }
+    size_t nl = buf.find('\n', line_start);
+    have_end = nl != std::string::npos;
+    line_end = nl;
+    if (!have_end) {
+      std::string rest = buf.substr(line_start);
+      size_t n = std::min(N - rest.size(), b.size() - file_pos);
+      buf = rest + b.substr(file_pos, n);
+      file_pos += n;
+      line_start = 0;
+      nl = buf.find('\n', 0);
+      have_end = nl != std::string::npos;
+      line_end = nl;
+    }
+    // ---- one iteration of Load's loop
     if (first) {
       first = false;
       int v = 0;
-      if (sscanf(line.c_str(), "# ninja log v%d", &v) == 1) { f.version = v; f.valid_header = (v == 7); }
+      std::string head = buf.substr(line_start, 40);
+      sscanf(head.c_str(), "# ninja log v%d\n", &v);
+      f.version = v;
+      f.valid_header = (v == 7);
       if (!f.valid_header) return f;
-      continue;
     }
-    // start \t end \t mtime \t output \t hash
+    if (!have_end) continue;
+    std::string line = buf.substr(line_start, line_end - line_start);
     size_t t1 = line.find('\t'); if (t1 == std::string::npos) continue;
     size_t t2 = line.find('\t', t1 + 1); if (t2 == std::string::npos) continue;
     size_t t3 = line.find('\t', t2 + 1); if (t3 == std::string::npos) continue;
